@@ -4,7 +4,7 @@ set -u
 P=$1; ID=$2; TIER=${3:-quick}
 cd /repo || exit 3
 if ! git diff --quiet; then echo "repo dirty"; exit 3; fi
-if ! git apply --3way "$P" 2>/tmp/apply.err && ! git apply "$P" 2>>/tmp/apply.err; then echo "patch does not apply"; cat /tmp/apply.err; git checkout -- . ; exit 3; fi
+if ! git apply "$P" 2>/tmp/apply.err; then echo "patch does not apply"; cat /tmp/apply.err; git reset -q --hard HEAD; exit 3; fi
 cd /verif && ./check "$ID" --tier "$TIER" > /tmp/trymut_$ID.log 2>&1; rc=$?
 git -C /repo reset -q --hard HEAD; git -C /repo clean -fdq
 git -C /verif checkout -- evidence 2>/dev/null
